@@ -30,8 +30,11 @@ def coq_tbl(keys):
 
 def coq_submit(line):
     op, a, r = D.split_line(line)
-    if op != "submit" or len(line) > 16000:
+    if op not in ("submit", "submitdup") or len(line) > 16000:
         return None
+    earlier = None
+    if op == "submitdup":   # deduplicated against an entry created through another chain (its issuers: last field)
+        earlier, a = a[-1], a[:-1]
     ep, bodylen, js, raws, vchain, tbsn, tbsp, now, wait = a
     if int(bodylen) > 4000:
         return None
@@ -47,6 +50,11 @@ def coq_submit(line):
     rl = "[]" if raws == "-" else "[%s]" % "; ".join(cb(x) for x in raws.split(","))
     opt = lambda x: "None" if x == "err" else "(Some %s)" % cb(x)
     w = {"ok": 0, "full": 1, "evicted": 2, "sunset": 3, "issuerfail": 4}.get(wait, 4)   # issuerfail: uploadIssuer failed (WOther)
+    if earlier is not None:
+        el = [] if earlier == "-" else earlier.split(",")
+        keys += el
+        t = "(run_submit_dedup %s %s %s %s %s %s %s %s (%s)%%Z %d [%s])" % (coq_tbl(keys), cbool(ep == "prechain"), bodylen, cbool(js), rl, vc, opt(tbsn), opt(tbsp), now, w, "; ".join(cb(x) for x in el))
+        return (t, r)
     t = "(run_submit %s %s %s %s %s %s %s %s (%s)%%Z %d)" % (coq_tbl(keys), cbool(ep == "prechain"), bodylen, cbool(js), rl, vc, opt(tbsn), opt(tbsp), now, w)
     return (t, r)
 
@@ -124,7 +132,7 @@ def main(tier, seed, replay):
         subs = [c for c in (coq_submit(l) for l in mlines) if c]
         by = {}
         for c in subs:
-            by.setdefault(c[1].split(":")[0] + c[1].split(":")[2][:1], []).append(c)
+            by.setdefault(c[1].split(":")[0] + c[1].split(":")[2][:1] + c[0][:17], []).append(c)
         sample = []
         for k in sorted(by):
             sample += rnd.sample(by[k], min(len(by[k]), 3 if tier == "quick" else 12))
@@ -138,19 +146,21 @@ def main(tier, seed, replay):
         if rc:
             sample.append(rc)
         ncross = D.vm_crosscheck(res, PROP, sample, "From SL Require Import Submit.Run.")
+    if stats and any(k.startswith("pending:") for k in stats) and not stats.get("pending:deduplicated-while-pending"):
+        print("# note: the pending scenario never produced a second submission deduplicated against a pending leaf (vacuous this run)")
     if not ok and not res.violations:
         cf = getattr(res, "coq_failure", None) or L.write_replay(PROP, "coq_failure.txt", "proof stage failed")
         res.violation(cf, "theorems of %s no longer check; differential run and monitors found no failing input" % PROP_V, no_input=True)
     elif not ok:
         print("# note: the Coq proof stage also failed: %s" % getattr(res, "coq_failure", "?"))
-    subs = [l for l in work if l.startswith("submit|")]
-    steps = [l for l in work if l.startswith(("submit|", "setroots|", "loadroots|", "upissuers|"))]
+    subs = [l for l in work if l.startswith(("submit|", "submitdup|"))]
+    steps = [l for l in work if l.startswith(("submit|", "submitdup|", "setroots|", "loadroots|", "upissuers|"))]
     nontrivial = len(set(l for l in subs if "|none|" not in l)) + len(set(l for l in work if l.startswith(("setroots", "loadroots", "upissuers"))))
     faulted = [l for l in subs if "|issuerfail|=>|" in l]
     pick = lambda pred: [l[:300] for l in subs if pred(l)][:1]
     cov.update({
         "evaluations": len(steps) + st.get("monitors", 0), "distinct_nontrivial": nontrivial,
-        "rule": "one evaluation = one harness line (stat lines excluded): a real DER chain (crypto/x509-generated CA hierarchy: accepted/unaccepted/temporarily accepted roots, intermediates, precertificate signing certificates, self-signed special roots) posted to the real add-chain/add-pre-chain handler of a real ctlog.Log with the real sequencer, or a root reload/get-roots step, or the issuer loop of one request of the issuer scenario (fresh CA hierarchies; the backend fails the first Upload of every issuer/ object, or honours a request context cancelled before the request / at the k-th Fetch / at the k-th Upload of an issuer; the same chain is resubmitted until it is accepted), or a monitor; non-trivial = the validation oracle returned a chain (sunlight's own decision logic was reached) or a root-state step; distinct by harness line",
+        "rule": "one evaluation = one harness line (stat lines excluded): a real DER chain (crypto/x509-generated CA hierarchy: accepted/unaccepted/temporarily accepted roots, intermediates, precertificate signing certificates, self-signed special roots) posted to the real add-chain/add-pre-chain handler of a real ctlog.Log with the real sequencer, or a root reload/get-roots step, or the issuer loop of one request of the issuer scenario (fresh CA hierarchies; the backend fails the first Upload of every issuer/ object, or honours a request context cancelled before the request / at the k-th Fetch / at the k-th Upload of an issuer; the same chain is resubmitted until it is accepted; and the pending scenario: the same leaf through different valid chains while the first submission is still pending or in sequencing), or a monitor; non-trivial = the validation oracle returned a chain (sunlight's own decision logic was reached) or a root-state step; distinct by harness line",
         "traces_validated_against_impl": max(0, len(steps) - st.get("diffs", 0)), "distinct_cases": len(set(steps)),
         "impl_property_monitors": st.get("monitors", 0), "monitor_failures": st.get("monitor_failures", 0),
         "model_impl_differences": st.get("diffs", 0), "vm_compute_crosschecked": ncross,
@@ -160,6 +170,12 @@ def main(tier, seed, replay):
                                   "requests_with_failed_issuer_step": len(faulted),
                                   "plans": {k.split(":", 1)[1]: v for k, v in stats.items() if k.startswith("issuerfault:")},
                                   "monitors": "mon_issuer_fault (failed Upload of issuer/<fp> during the request => 5xx, never 200, leaf not pooled), mon_issuer_retry (accepted after resubmission), mon_issuers on every accepted attempt, mon_issuers_all (every fingerprint of every entry of that log names a stored object with that SHA-256)"},
+        "pending_scenario": {"jobs": sum(v for k, v in stats.items() if k.startswith("pending:") and k.endswith((",pool", ",sequencing"))),
+                             "held_in_sequencing": sum(v for k, v in stats.items() if k.startswith("pending:") and k.endswith(",sequencing")),
+                             "second_chain_deduplicated_while_first_pending": stats.get("pending:deduplicated-while-pending", 0),
+                             "second_chain_stored_before_the_round": stats.get("pending:second-chain-stored-before-the-round", 0),
+                             "kinds": sorted(set(k.split(":")[1].split(",")[0] for k in stats if k.startswith("pending:") and k.endswith((",pool", ",sequencing")))),
+                             "what": "the same leaf through 4 submissions while the first is pending (in the current pool, or in the pool of a round held at its first upload): first chain, a second valid chain (re-issued / cross-signed intermediate or precertificate signing certificate: same subject and key), the first chain again, a third chain; then a further path after sequencing (cache). mon_issuers on each (entry fingerprints = the first chain's; every chain certificate of THIS accepted submission stored), mon_issuers_all over every submission answered 200; replayed by the model as submitdup/upissuers lines"},
         "samples": pick(lambda l: "|=>|200:" in l and "|chain|" in l) + pick(lambda l: "|=>|200:" in l and "|prechain|" in l)
                    + pick(lambda l: "|=>|400:" in l and "|none|" not in l) + [l[:300] for l in work if l.startswith("setroots")][:1]
                    + [l[:120] + " ... " + l[l.index("|=>|") - 60:] for l in work if l.startswith("upissuers|") and "|=>|err" in l][:1]
